@@ -227,6 +227,23 @@ def check(ctx):
                                      "order inside each leaf, as in ravel_pytree)", not lb,
                        unproven=True, detail="; ".join(short(x, 100) for x in lb[:2]),
                        node=node, stmt="tuned matrix layout " + (pretty(lb[0])[:100] if lb else ""))
+        # the stored value is the tuner's result itself (selected by mm_diag), not a
+        # post-processed version of it (e.g. its diagonal only, a blend with the old one)
+        res0 = evaluate(repo, ts, inline=make_inliner(
+            repo, self_class=ci, allow=lambda f: f.cls is not None and f.name in (
+                "position", "_tune_fast")), inline_depth=2)
+        st0 = [val for loc, val, _, _ in res0.stores
+               if loc == ("a", ks, "inverse_mass_matrix")]
+        ok_raw = False
+        if len(st0) == 1 and st0[0][0] == "phi" and st0[0][1] == ("a", n("self"), "mm_diag"):
+            d_arm, f_arm = st0[0][2], st0[0][3]
+            ok_raw = (is_call(d_arm, "liesel.goose.mm.tune_inv_mm_diag")
+                      and is_call(f_arm, "liesel.goose.mm.tune_inv_mm_full")
+                      and d_arm[2] == f_arm[2] and len(d_arm[2]) == 1)
+        ctx.ob("C12.R1", ts, "the stored matrix is exactly tune_inv_mm_diag(history) in "
+                             "diagonal mode and tune_inv_mm_full(history) in dense mode (no "
+                             "post-processing of the tuned matrix)", ok_raw,
+               detail=short(st0[0], 200) if st0 else "no store", stmt="stored matrix is the tuner result")
         # ---- R2: history restricted to own keys
         calls = [t for t, _, _ in res.calls if is_call(t, "liesel.goose.mm.tune_inv_mm_diag",
                                                        "liesel.goose.mm.tune_inv_mm_full")]
